@@ -2,6 +2,16 @@
 From Algo.C18 Require Import Model.
 Open Scope Z_scope.
 
+(** generic runner of an abstract (total, deterministic) machine *)
+Fixpoint a_run {A P O : Type} (step : A -> P -> A * O) (a : A) (ops : list P) : A * list O :=
+  match ops with
+  | [] => (a, [])
+  | o :: rest =>
+      let r := step a o in
+      let r' := a_run step (fst r) rest in
+      (fst r', snd r :: snd r')
+  end.
+
 Section Spec.
 Variable V : Type.
 Variable zero : V.
@@ -36,21 +46,11 @@ Definition ls_step (l : list V) (o : op V) : list V * out V :=
   | OpIsEmpty => (l, OutBool (is_nil l))
   end.
 
-Fixpoint l_run (step : list V -> op V -> list V * out V) (l : list V) (ops : list (op V))
-  : list V * list (out V) :=
-  match ops with
-  | [] => (l, [])
-  | o :: rest =>
-      let r := step l o in
-      let r' := l_run step (fst r) rest in
-      (fst r', snd r :: snd r')
-  end.
-
 (** outputs of a whole history started on the empty structure *)
-Definition lq_outs (ops : list (op V)) : list (out V) := snd (l_run lq_step [] ops).
-Definition ls_outs (ops : list (op V)) : list (out V) := snd (l_run ls_step [] ops).
-Definition lq_final (ops : list (op V)) : list V := fst (l_run lq_step [] ops).
-Definition ls_final (ops : list (op V)) : list V := fst (l_run ls_step [] ops).
+Definition lq_outs (ops : list (op V)) : list (out V) := snd (a_run lq_step [] ops).
+Definition ls_outs (ops : list (op V)) : list (out V) := snd (a_run ls_step [] ops).
+Definition lq_final (ops : list (op V)) : list V := fst (a_run lq_step [] ops).
+Definition ls_final (ops : list (op V)) : list V := fst (a_run ls_step [] ops).
 
 (** history projections used by the order theorems *)
 Fixpoint added (ops : list (op V)) : list V :=
@@ -99,13 +99,8 @@ Definition lsoft_step (a : lsoft) (o : sop V) : lsoft * sout V :=
   | SValues => (a, SOVals (ls_all a))
   end.
 
-Fixpoint lsoft_run (a : lsoft) (ops : list (sop V)) : lsoft * list (sout V) :=
-  match ops with
-  | [] => (a, [])
-  | o :: rest =>
-      let r := lsoft_step a o in
-      let r' := lsoft_run (fst r) rest in
-      (fst r', snd r :: snd r')
-  end.
+Definition lsoft_run (a : lsoft) (ops : list (sop V)) : lsoft * list (sout V) :=
+  a_run lsoft_step a ops.
+Definition lsoft_outs (ops : list (sop V)) : list (sout V) := snd (lsoft_run lsoft_new ops).
 
 End Spec.
